@@ -175,8 +175,10 @@ func (g *G) aspec(opts map[string]string) *ASpec {
 				switch k := g.intn(20); {
 				case k < 1:
 					b.Target = "nowhere"
-				case k < 3:
-					b.Target = "@" + g.pick([]string{"t", "a", "next"})
+				case k < 4:
+					// "@t": bound beforehand (the state may carry t); "@?x": bound by this
+					// branch's own pattern or guard
+					b.Target = "@" + g.pick([]string{"t", "a", "next", "?x", "?y", "?x"})
 				default:
 					b.Target = g.pick(names)
 				}
